@@ -133,21 +133,28 @@ def clone(op, t, memory_format=torch.preserve_format):
 
 
 @register_qbytestensor_op([torch.ops.aten.copy_])
-def copy_(op, dest, src):
+def copy_(op, dest, src, non_blocking=False):
     if not isinstance(dest, QBytesTensor):
         # Copy the dequantized values into a standard Tensor
-        return op(dest, src.dequantize())
+        return op(dest, src.dequantize(), non_blocking)
+    if not isinstance(src, QBytesTensor):
+        # Copy a standard Tensor into a quantized Tensor: project its values using the scale of the destination
+        from .quantizers import SymmetricQuantizer
+
+        src = torch.broadcast_to(src, dest.shape).to(dest.dtype)
+        dest._data = op(dest._data, SymmetricQuantizer.apply(src, dest.qtype, dest.axis, dest._scale)._data, non_blocking)
+        return dest
     assert dest.qtype == src.qtype
-    dest._data = op(dest._data, src._data)
-    dest._scale = op(dest._scale, src._scale)
+    dest._data = op(dest._data, src._data, non_blocking)
+    dest._scale = op(dest._scale, src._scale, non_blocking)
     return dest
 
 
 @register_qbytestensor_op([torch.ops.aten.div])
-def div(op, input, other):
-    if not isinstance(input, QBytesTensor) or not is_positive_scalar(other):
-        # Only the division of a quantized tensor by a scalar can be applied to the scale
-        return qfallback(op, input, other)
+def div(op, input, other, **kwargs):
+    if not isinstance(input, QBytesTensor) or not is_positive_scalar(other) or kwargs.get("rounding_mode") is not None:
+        # Only the true division of a quantized tensor by a scalar can be applied to the scale
+        return qfallback(op, input, other, **kwargs)
     # We just divide the scale (that keeps its dtype when the Tensor has dimensions, as a Tensor divided by a scalar does)
     out_scale = op(input._scale, other)
     if input.ndim > 0:
@@ -327,6 +334,9 @@ def transpose(op, input, *args):
 
 @register_qbytestensor_op([torch.ops.aten.t])
 def transpose2d(op, input):
+    if input.ndim < 2:
+        # t() of a vector (or a scalar) is the vector itself
+        return QBytesTensor(input.qtype, input.axis, input.size(), input.stride(), op(input._data), input._scale)
     out_data = op(input._data)
     out_scale = input._scale
     out_axis = input.axis
